@@ -341,6 +341,8 @@ def c01_cases(seed, n, tier, replay=None):
         r = util.rng(seed, "C01", "g", i)
         g = schemagen.SchemaGen(r, profile="G", max_depth=3, avoid_known=False)
         doc = g.document()
+        if r.random() < 0.4:
+            doc = common.add_defaults(doc, r, p=0.5)   # default validation + rendering paths
         if r.random() < 0.3:
             names = list(doc["definitions"].keys())
             doc["title"] = "RootType"
